@@ -1,9 +1,10 @@
 package main
 
 import (
-	"go/token"
 	"fmt"
+	"go/token"
 	"regexp"
+	"sort"
 	"strings"
 
 	"golang.org/x/tools/go/ssa"
@@ -14,11 +15,14 @@ func init() {
 		ID:    "C03",
 		Title: "trust comes only from the stores the applicable policy names, typed by scheme",
 		Run:   runC03All,
-		Explain: "(a) who-may-call: X509TrustStore.GetCertificates is invoked at exactly one product site; (b) at that site the type argument is the loader's type parameter, the name is the part after ':' of an element of the trustStores parameter, " +
+		Explain: "(a) who-may-call: X509TrustStore.GetCertificates is invoked at exactly one product site; (b) at that site the type argument is the loader's type parameter, the name is the part after ':' of an element of the trustStores parameter " +
+			"(or of the entry parameter of a per-entry loader that forwards exactly what GetCertificates returned and whose closed call sites pass such an element), " +
 			"the call is cut by separator-found and by wanted type == prefix (mismatch never reaches the call), a load error leaves the iteration only through failing exits, failing exits return a nil slice, and the result slice is appended only from those calls; " +
-			"(c) scheme -> store type: ca iff notary.x509, signingAuthority iff notary.x509.signingAuthority, anything else fail-closed; tsa only for notary.x509 and only from the timestamp path; the scheme is the verified envelope's; " +
-			"(d) the name, stores, identities and signatureVerification handed to the signature processing are fields of the one statement returned by the selection function, and the loader receives that stores parameter; " +
-			"(e) signature.VerifyAuthenticity receives exactly the loader's certificates, an empty set and a verification error are failing results, a loader error becomes the authenticity result's Error; " +
+			"(c) scheme -> store type: ca iff notary.x509, signingAuthority iff notary.x509.signingAuthority, anything else fail-closed (switch/if, a mapping helper, or a constant never-written table with an ok test); tsa only for notary.x509 and only from the timestamp path; the scheme is the verified envelope's; " +
+			"(d) the trust-store list every loader wrapper receives (authenticity and tsa) is, followed upwards through parameters with closed call-site lists, captured variables, fields of unexported state structs and phis, the TrustStores field of one statement S; " +
+			"S is the result of a selection method of the policy document (through selection helpers and parameters); the function that takes S apart hands module code only fields of S, among them name, stores, identities and signatureVerification; " +
+			"(e) signature.VerifyAuthenticity receives exactly the loader's certificates (followed through parameters, phis and forwarding layers), an empty set and a verification error are failing results " +
+			"(decided on the value that ends up in the result's error field: literal or result constructor, single exit with an error local), a loader error becomes the Error of an authenticity-typed result; " +
 			"(f) store/*: the store implementation returns, for (type, name), exactly what it just read from the directory of that type and name (the exact-set and known-type obligations of C13, re-decided here: a cache keyed by name alone hands a ca store to a signingAuthority signature); " +
 			"(g) applicable/*: the statement whose stores are used is the one selected for the artifact (the selection obligations of C08, re-decided here: stores listed only by other statements never confer trust).",
 		NotCov:  "certificate identity (x509.Certificate.Equal inside notation-core-go's VerifyAuthenticity), the trust store's per-file validity rules (C13).",
@@ -91,21 +95,79 @@ func runC03(c *Ctx) {
 		return
 	}
 	typeD, nameD := desc(args[2]), desc(args[3])
-	reName := regexp.MustCompile(`^call:strings\.Cut\((param:[A-Za-z0-9_]+)\[.*\],const:":"\)#1$`)
+	// the listed entry that is cut at ':' is an element of the trustStores parameter — or, when the body of the per-entry loop
+	// is a function of its own, a string parameter of that function (decided at its call sites, below)
+	reName := regexp.MustCompile(`^call:strings\.Cut\((param:[A-Za-z0-9_]+)(\[.*\])?,const:":"\)#1$`)
 	m := reName.FindStringSubmatch(nameD)
-	okType := strings.HasPrefix(typeD, "param:")
+	okType := strings.HasPrefix(typeD, "param:") && !strings.Contains(typeD, ".")
 	c.Check(okType, "loader/type-argument", "provenance: the store type passed to GetCertificates is the loader's wanted-type parameter", w.InstrPos(L), "type argument is "+typeD)
 	c.Check(m != nil, "loader/name-argument", "provenance: the store name passed to GetCertificates is strings.Cut(element of the trustStores parameter, \":\") part 2", w.InstrPos(L), "name argument is "+nameD)
 	if m == nil || !okType {
 		return
 	}
-	storesParam := m[1]
 	cutBase := strings.TrimSuffix(nameD, "#1")
 	g := fi.GuardsOf(L)
 	c.Evals++
 	c.Check(labelHas(g, "T("+cutBase+"#2)"), "loader/separator", "effect-site gate: GetCertificates is reached only when the separator was found", w.InstrPos(L), "guards: "+summarizeLabels(g, 8))
 	c.Check(labelHas(g, "EQ("+typeD+","+cutBase+"#0)") || labelHas(g, "EQ("+cutBase+"#0,"+typeD+")"), "loader/type-filter",
 		"effect-site gate: GetCertificates is reached only when the wanted type equals the prefix of the listed store (stores of another type are never loaded)", w.InstrPos(L), "guards: "+summarizeLabels(g, 8))
+	if m[2] != "" {
+		c03LoaderBody(c, G, L, typeD, m[1])
+		return
+	}
+	// per-entry loader: G handles one listed entry (its parameter m[1]). It must hand on exactly what GetCertificates returned
+	// (or nothing), fail when GetCertificates fails, and every call site must pass an element of the caller's trustStores
+	// parameter and the caller's wanted-type parameter; the caller is then the loader, the call its load site.
+	c03EntryLoader(c, G, L)
+	entryIdx, typeIdx := -1, -1
+	for i, p := range G.Params {
+		if "param:"+p.Name() == m[1] {
+			entryIdx = i
+		}
+		if "param:"+p.Name() == typeD {
+			typeIdx = i
+		}
+	}
+	sitesG, closed := c03CallSites(w, G)
+	ruleE := "provenance: the per-entry loader is called only with an element of the caller's trustStores parameter and the caller's wanted-type parameter"
+	if entryIdx < 0 || typeIdx < 0 || !closed || len(sitesG) == 0 {
+		c.Bad("loader/name-argument", ruleE, w.FnPos(G), "the per-entry loader "+fnName(G)+" can be called with any entry (call-site list not closed, or parameters not found)")
+		return
+	}
+	reElem := regexp.MustCompile(`^(param:[A-Za-z0-9_]+)\[.*\]$`)
+	for _, s := range sitesG {
+		call, isCall := s.(*ssa.Call)
+		if !isCall {
+			c.Bad("loader/name-argument", ruleE, w.InstrPos(s), "the per-entry loader is started by go/defer")
+			continue
+		}
+		td, ed := desc(call.Call.Args[typeIdx]), desc(call.Call.Args[entryIdx])
+		me := reElem.FindStringSubmatch(ed)
+		okT := strings.HasPrefix(td, "param:") && !strings.Contains(td, ".")
+		c.Check(okT, "loader/type-argument", "provenance: the store type passed to GetCertificates is the loader's wanted-type parameter", w.InstrPos(call), "type argument of the per-entry loader is "+td)
+		c.Check(me != nil, "loader/name-argument", ruleE, w.InstrPos(call), "entry argument is "+ed)
+		if okT && me != nil {
+			c.SeenFn(call.Parent().String())
+			c03LoaderBody(c, call.Parent(), call, td, me[1])
+		}
+	}
+}
+
+// c03EntryLoader: the function holding the GetCertificates call handles one listed entry: every exit returns the call's
+// certificates or nil (nothing is added), and a GetCertificates error never reaches a success exit.
+func c03EntryLoader(c *Ctx, G *ssa.Function, L *ssa.Call) {
+	w := c.W
+	_, ok := c03Forwards(w, G, L, 0)
+	c.Evals++
+	c.Check(ok, "loader/entry-loader-forwards", "the per-entry loader returns exactly what GetCertificates returned (or nothing) and fails whenever GetCertificates fails", w.FnPos(G),
+		"an exit of "+fnName(G)+" returns other certificates, or succeeds after a load error")
+}
+
+// c03LoaderBody: G ranges over its trustStores parameter (storesParam) and loads each entry by the call L (GetCertificates itself,
+// or the per-entry loader), whose type argument is G's parameter typeD.
+func c03LoaderBody(c *Ctx, G *ssa.Function, L *ssa.Call, typeD, storesParam string) {
+	w := c.W
+	fi := w.Info(G)
 	// every failing exit returns a nil slice; success exits return the accumulated slice
 	okNil := true
 	var badRet string
@@ -155,7 +217,7 @@ func runC03(c *Ctx) {
 		}
 		if bi, ok := call.Call.Value.(*ssa.Builtin); ok && bi.Name() == "append" && strings.Contains(call.Type().String(), "x509.Certificate") {
 			nApp++
-			if e, ok := call.Call.Args[1].(*ssa.Extract); !ok || e.Tuple != L || e.Index != 0 {
+			if !c03FromLoadResult(call.Call.Args[1], L) {
 				okApp = false
 			}
 		}
@@ -300,6 +362,7 @@ func c03Mapping(c *Ctx, G *ssa.Function, L *ssa.Call, typeD, storesParam string)
 		fn        *ssa.Function
 		consts    []string
 		storesArg string
+		storesIdx int // index of the wrapper's own trust-stores parameter
 	}
 	var wraps []wrap
 	for _, fn := range w.Funcs {
@@ -311,7 +374,10 @@ func c03Mapping(c *Ctx, G *ssa.Function, L *ssa.Call, typeD, storesParam string)
 			c.SeenFn(fn.String())
 			ffi := w.Info(fn)
 			v := call.Call.Args[typeIdx]
-			wr := wrap{fn: fn, storesArg: desc(call.Call.Args[storesIdx])}
+			wr := wrap{fn: fn, storesArg: desc(call.Call.Args[storesIdx]), storesIdx: -1}
+			if sp, isP := call.Call.Args[storesIdx].(*ssa.Parameter); isP {
+				wr.storesIdx = c03ParamIndex(sp)
+			}
 			type edge struct {
 				k    *ssa.Const
 				from *ssa.BasicBlock
@@ -382,6 +448,32 @@ func c03Mapping(c *Ctx, G *ssa.Function, L *ssa.Call, typeD, storesParam string)
 						}
 					}
 				}
+				// the mapping written as data: a constant, never written package-level table indexed by the scheme parameter, a
+				// missing entry rejected by the ok test
+				if !handled {
+					if tbl, okLabel, isTbl := c03TableMapping(w, v); isTbl {
+						handled = labelHas(ffi.GuardsOf(call), okLabel)
+						var schemes []string
+						for sch := range tbl {
+							schemes = append(schemes, sch)
+						}
+						sort.Strings(schemes)
+						for _, sch := range schemes {
+							ks := fmt.Sprintf("%q", tbl[sch])
+							wr.consts = append(wr.consts, ks)
+							key := "mapping/" + tbl[sch]
+							c.Evals++
+							if scheme, known := want[ks]; !known {
+								c.Bad(key, "scheme -> store type: only ca, signingAuthority and tsa are loaded", w.InstrPos(call), "unexpected store type constant "+ks+" in the table")
+							} else if scheme != sch {
+								c.Bad(key, "scheme -> store type: the constant "+ks+" reaches the loader only under signing scheme == "+scheme, w.InstrPos(call), "the table maps scheme "+sch+" to "+ks)
+							} else {
+								c.OK(key, "scheme -> store type: the constant "+ks+" reaches the loader only under signing scheme == "+scheme+" (entry of a constant table indexed by the scheme)", w.InstrPos(call))
+								seen[ks] = true
+							}
+						}
+					}
+				}
 				if !handled {
 					c.Bad("mapping/"+fnName(fn), "the store type handed to the loader is a constant chosen by the signing scheme", w.InstrPos(call), "non-constant store type: "+desc(v))
 				}
@@ -419,7 +511,7 @@ func c03Mapping(c *Ctx, G *ssa.Function, L *ssa.Call, typeD, storesParam string)
 				}
 			}
 			// stores argument is the wrapper's own parameter
-			c.Check(strings.HasPrefix(wr.storesArg, "param:"), "mapping/stores-passthrough/"+fnName(fn), "provenance: the wrapper hands its trustStores parameter to the loader unchanged", w.InstrPos(call), "stores argument is "+wr.storesArg)
+			c.Check(wr.storesIdx >= 0, "mapping/stores-passthrough/"+fnName(fn), "provenance: the wrapper hands its trustStores parameter to the loader unchanged", w.InstrPos(call), "stores argument is "+wr.storesArg)
 			wraps = append(wraps, wr)
 		}
 	}
@@ -428,7 +520,18 @@ func c03Mapping(c *Ctx, G *ssa.Function, L *ssa.Call, typeD, storesParam string)
 			c.Unk("mapping/"+strings.Trim(k, `"`), "scheme -> store type mapping instance", "-", "no loader call with store type "+k+" found")
 		}
 	}
-	// callers of the wrappers
+	// callers of the wrappers. A function that only forwards a wrapper's certificates and error (c03Forwards) is one more
+	// layer of the loader: the authenticity obligations are decided at its callers. Scheme provenance and scoping are decided
+	// at the wrapper call itself (the scheme and the stores are followed upwards from there, through any number of layers).
+	type layer struct {
+		fn      *ssa.Function
+		isTSA   bool
+		first   bool // a scheme -> type wrapper (as opposed to a forwarding layer)
+		stores  int  // index of the trust-stores parameter, -1 if unknown
+		certIdx int
+		depth   int
+	}
+	var queue []layer
 	for _, wr := range wraps {
 		isTSA := false
 		for _, k := range wr.consts {
@@ -436,229 +539,49 @@ func c03Mapping(c *Ctx, G *ssa.Function, L *ssa.Call, typeD, storesParam string)
 				isTSA = true
 			}
 		}
+		queue = append(queue, layer{fn: wr.fn, isTSA: isTSA, first: true, stores: wr.storesIdx, certIdx: 0})
+	}
+	nAuth := 0
+	for len(queue) > 0 {
+		ly := queue[0]
+		queue = queue[1:]
 		for _, fn := range w.Funcs {
 			for _, ci := range allCalls(fn) {
 				call, ok := ci.(*ssa.Call)
-				if !ok || staticCallee(call) != wr.fn {
+				if !ok || staticCallee(call) != ly.fn {
 					continue
 				}
 				c.SeenFn(fn.String())
-				// scheme argument: the verified envelope's signing scheme
-				okScheme := false
-				for _, a := range call.Call.Args {
-					if strings.HasSuffix(desc(a), ".SignerInfo.SignedAttributes.SigningScheme") || c03SchemeOfEnvelope(w, a) {
-						okScheme = true
+				if ly.first {
+					// scheme argument: the verified envelope's signing scheme
+					okScheme := false
+					for _, a := range call.Call.Args {
+						if c03SchemeProvenance(w, a, 0) {
+							okScheme = true
+						}
 					}
-				}
-				c.Check(okScheme, "mapping/scheme-provenance/"+fnName(wr.fn)+"@"+fnName(fn), "provenance: the scheme deciding the store type is the verified envelope's SignedAttributes.SigningScheme", w.InstrPos(call), "scheme argument not derived from the envelope")
-				hasTS := len(findCalls(fn, "tspclient.ParseSignedToken")) > 0
-				if isTSA {
-					c.Check(hasTS, "mapping/tsa-only-for-timestamp", "who-may-call: tsa stores are loaded only by the timestamp verification (the function that parses the countersignature)", w.InstrPos(call), "tsa stores loaded from "+fnName(fn))
-					// and their certificates never reach VerifyAuthenticity (checked by provenance of that call below)
-				} else {
-					c03Authenticity(c, fn, call)
-					c03Scoping(c, fn, call, wr.fn)
-				}
-			}
-		}
-	}
-}
-
-// c03Authenticity: in F, the certificates returned by the loader wrapper call
-// are exactly what signature.VerifyAuthenticity receives.
-func c03Authenticity(c *Ctx, F *ssa.Function, load *ssa.Call) {
-	w := c.W
-	fi := w.Info(F)
-	loadErr := desc(load) + "#err"
-	// find VerifyAuthenticity (directly in F or in a module callee that receives the certificates)
-	var va *ssa.Call
-	var vaFn *ssa.Function
-	var viaCall *ssa.Call
-	for _, f := range w.moduleCallees(F) {
-		for _, ci := range findCalls(f, "core/signature.VerifyAuthenticity") {
-			va, vaFn = ci.(*ssa.Call), f
-		}
-	}
-	rule := "provenance: signature.VerifyAuthenticity receives exactly the certificates the scheme-typed loader returned for the applicable statement's stores"
-	if va == nil {
-		c.Bad("authenticity/verify-call", rule, w.FnPos(F), "signature.VerifyAuthenticity is not called on the authenticity path")
-		return
-	}
-	c.SeenFn(vaFn.String())
-	certD := desc(va.Call.Args[1])
-	ok := false
-	if vaFn == F {
-		if e, isE := va.Call.Args[1].(*ssa.Extract); isE && e.Tuple == load && e.Index == 0 {
-			ok = true
-		}
-		viaCall = va
-	} else if strings.HasPrefix(certD, "param:") {
-		for _, ci := range allCalls(F) {
-			call, isC := ci.(*ssa.Call)
-			if !isC || staticCallee(call) != vaFn {
-				continue
-			}
-			viaCall = call
-			for i, p := range vaFn.Params {
-				if "param:"+p.Name() == certD {
-					if e, isE := call.Call.Args[i].(*ssa.Extract); isE && e.Tuple == load && e.Index == 0 {
-						ok = true
-					}
-				}
-			}
-		}
-	}
-	c.Evals++
-	c.Check(ok, "authenticity/certs-from-loader", rule, w.InstrPos(va), "the certificates given to VerifyAuthenticity are "+certD+", not the loader's result")
-	if viaCall != nil {
-		g := fi.GuardsOf(viaCall)
-		c.Check(labelHas(g, "EQ("+loadErr+",nil)"), "authenticity/only-after-successful-load", "effect-site gate: authenticity is evaluated only after the stores were loaded without error", w.InstrPos(viaCall), "guards: "+summarizeLabels(g, 6))
-	}
-	// loader error becomes the authenticity result's Error
-	ta, _ := w.constString("verifier/trustpolicy", "TypeAuthenticity")
-	okStore := false
-	for _, b := range F.Blocks {
-		for _, in := range b.Instrs {
-			st, isSt := in.(*ssa.Store)
-			if !isSt {
-				continue
-			}
-			fa, isFa := st.Addr.(*ssa.FieldAddr)
-			if !isFa || !isVRPtr(fa.X.Type()) || fieldName(fa.X.Type(), fa.Field) != "Error" {
-				continue
-			}
-			carries := desc(st.Val) == loadErr && labelHas(fi.GuardsOf(st), "NE("+loadErr+",nil)")
-			// one result object filled in at the end: the stored value is a phi one edge of which is the loader's error,
-			// arriving from the branch taken when that error is non-nil
-			if ph, isPhi := st.Val.(*ssa.Phi); isPhi && !carries {
-				for i, e := range ph.Edges {
-					if desc(e) != loadErr {
+					c.Check(okScheme, "mapping/scheme-provenance/"+fnName(ly.fn)+"@"+fnName(fn), "provenance: the scheme deciding the store type is the verified envelope's SignedAttributes.SigningScheme", w.InstrPos(call), "scheme argument not derived from the envelope")
+					if ly.isTSA {
+						c.Check(c03OnTimestampPath(w, fn, 0), "mapping/tsa-only-for-timestamp", "who-may-call: tsa stores are loaded only by the timestamp verification (the function that parses the countersignature, or a helper called only by it)", w.InstrPos(call), "tsa stores loaded from "+fnName(fn))
+						// and their certificates never reach VerifyAuthenticity (checked by provenance of that call below)
+						c03Scoping(c, call, ly.stores, "tsa ")
 						continue
 					}
-					pred := ph.Block().Preds[i]
-					gl := map[string]string{}
-					if pred.Index != 0 {
-						gl, _ = fi.mustPassBetween([]int{0}, map[int]bool{pred.Index: true})
-					}
-					if labelHas(gl, "NE("+loadErr+",nil)") {
-						carries = true
-					}
-					// or the edge itself is the non-nil branch of the test
-					if iff, isIf := blockTerm(pred).(*ssa.If); isIf {
-						for j, sc := range pred.Succs {
-							if sc == ph.Block() && condLabel(iff.Cond, j == 0) == "NE("+loadErr+",nil)" {
-								carries = true
-							}
-						}
-					}
+					c03Scoping(c, call, ly.stores, "")
 				}
-			}
-			if carries {
-				// the same object has Type authenticity
-				if al, isAl := fa.X.(*ssa.Alloc); isAl {
-					for _, r := range *al.Referrers() {
-						if fa2, ok := r.(*ssa.FieldAddr); ok && fieldName(al.Type(), fa2.Field) == "Type" {
-							for _, rr := range *fa2.Referrers() {
-								if st2, ok := rr.(*ssa.Store); ok {
-									if k, ok := st2.Val.(*ssa.Const); ok && constString(k) == fmt.Sprintf("%q", ta) {
-										okStore = true
-									}
-								}
-							}
-						}
-					}
+				if ly.isTSA {
+					continue
 				}
-			}
-		}
-	}
-	c.Evals++
-	c.Check(okStore, "authenticity/load-error-is-failure", "a loader error is stored as the Error of an authenticity-typed validation result (it is never ignored)", w.InstrPos(load), "no authenticity result carries the loader's error")
-	// inside the function that calls VerifyAuthenticity: empty set and verification error are failing
-	mode := Mode{Kind: mErr}
-	if vaFn.Signature.Results().Len() == 1 && isVRPtr(vaFn.Signature.Results().At(0).Type()) {
-		mode = Mode{Kind: mObj, K: 0}
-	}
-	s := w.Summarize(vaFn, mode)
-	c.Evals += s.States
-	if vaFn != F {
-		c.requireOnExits("authenticity", vaFn, s.Exits, []Need{
-			{Name: "empty-set-fails", What: "len(trusted certificates) >= 1", Alt: [][]string{{"GE(len(" + certD + "),const:1)"}, {"GT(len(" + certD + "),const:0)"}, {"NE(len(" + certD + "),const:0)"}}},
-			{Name: "verify-error-fails", What: "signature.VerifyAuthenticity err == nil", Subs: []string{"EQ(call:core/signature.VerifyAuthenticity(", "#err,nil)"}},
-		})
-		// first argument: the verified signer info
-		siD := desc(va.Call.Args[0])
-		if strings.HasPrefix(siD, "param:") && viaCall != nil {
-			for i, p := range vaFn.Params {
-				if "param:"+p.Name() == siD && i < len(viaCall.Call.Args) {
-					siD = desc(viaCall.Call.Args[i])
+				if k, fw := c03Forwards(w, fn, call, ly.certIdx); fw && ly.depth < 3 {
+					queue = append(queue, layer{fn: fn, certIdx: k, depth: ly.depth + 1})
+					continue
 				}
+				nAuth++
+				c03Authenticity(c, call, ly.certIdx)
 			}
 		}
-		c.Check(strings.HasSuffix(siD, ".EnvelopeContent.SignerInfo") || strings.HasSuffix(desc(va.Call.Args[0]), ".EnvelopeContent.SignerInfo"), "authenticity/signer-info", "provenance: VerifyAuthenticity is applied to the verified envelope's SignerInfo", w.InstrPos(va), "first argument is "+desc(va.Call.Args[0]))
 	}
-}
-
-// c03Scoping: the statement fields handed down come from one selected statement.
-func c03Scoping(c *Ctx, F *ssa.Function, load *ssa.Call, wrapper *ssa.Function) {
-	w := c.W
-	// which parameter of F carries the stores?
-	var storesParam string
-	for _, a := range load.Call.Args {
-		d := desc(a)
-		if strings.HasPrefix(d, "param:") && strings.Contains(strings.ToLower(d), "store") && !strings.Contains(d, ".") {
-			storesParam = d
-		}
-	}
-	rule := "per-statement scoping: the processing function loads the stores of its own trustStores parameter"
-	if storesParam == "" {
-		c.Bad("scoping/loader-gets-statement-stores", rule, w.InstrPos(load), "the loader does not receive a trustStores parameter of "+fnName(F))
-		return
-	}
-	c.OK("scoping/loader-gets-statement-stores", rule, w.InstrPos(load))
-	sIdx := -1
-	for i, p := range F.Params {
-		if "param:"+p.Name() == storesParam {
-			sIdx = i
-		}
-	}
-	// callers of F
-	n := 0
-	for _, fn := range w.Funcs {
-		for _, ci := range allCalls(fn) {
-			call, ok := ci.(*ssa.Call)
-			if !ok || staticCallee(call) != F {
-				continue
-			}
-			n++
-			c.SeenFn(fn.String())
-			sd := desc(call.Call.Args[sIdx])
-			base := strings.TrimSuffix(sd, ".TrustStores")
-			key := "scoping/one-statement/" + fnName(fn)
-			rule := "per-statement scoping: name, trust stores, trusted identities and signatureVerification handed to the signature processing are fields of the single statement returned by the policy selection"
-			if base == sd {
-				c.Bad(key, rule, w.InstrPos(call), "trust stores argument is "+sd)
-				continue
-			}
-			okSel := strings.Contains(base, "GetApplicableTrustPolicy(") || strings.Contains(base, "GetGlobalTrustPolicy(")
-			var fields []string
-			for _, a := range call.Call.Args {
-				d := desc(a)
-				if strings.HasPrefix(d, base+".") {
-					fields = append(fields, strings.TrimPrefix(d, base+"."))
-				} else if strings.HasSuffix(d, ".TrustedIdentities") || strings.HasSuffix(d, ".SignatureVerification") || (strings.HasSuffix(d, ".Name") && strings.Contains(d, "TrustPolicy")) {
-					okSel = false
-				}
-			}
-			have := map[string]bool{}
-			for _, f := range fields {
-				have[f] = true
-			}
-			c.Evals++
-			c.Check(okSel && have["Name"] && have["TrustStores"] && have["TrustedIdentities"] && have["SignatureVerification"], key, rule, w.InstrPos(call),
-				fmt.Sprintf("statement base %s; fields taken from it: %v", trunc(base, 120), fields))
-		}
-	}
-	if n == 0 {
-		c.Unk("scoping/one-statement", "anchor: callers of the signature processing function", w.FnPos(F), "none found")
+	if nAuth == 0 {
+		c.Unk("authenticity/verify-call", "anchor: the function that receives the loader's certificates", "-", "no caller of the scheme-typed loader found")
 	}
 }
